@@ -424,4 +424,98 @@ theorem decode_post {bs : Bytes} (failAt : Option Nat) (fuel : Nat) :
                 · have : walk { st3 with seqs := st3.seqs + 1 } = walk st3 := rfl
                   rw [this, walk_of_segs st3 st2 _ hsegs3, hd2, lenStep_crc d2 C hcl]; rfl
 
+/-! ### failures of the reader are handed back -/
+
+/-- every request of the raw decoder, when it fails with a failure of the reader, ends the run with that error -/
+inductive RKeeps : P → Prop
+  | ret (a : Out) : RKeeps (.ret a)
+  | read (n : Nat) (k : Except RErr Bytes → P) :
+      (∀ bs, RKeeps (k (.ok bs))) → (∀ e, RKeeps (k (.error e))) →
+      (∀ e, e.isReaderFailure = true → ∃ a, k (.error e) = .ret a ∧ a.status = some (.io e)) → RKeeps (.read n k)
+
+theorem rkeeps_run (p : P) (hp : RKeeps p) :
+    ∀ (s : Sched) (e : RErr), firstFullErr p s = some e → (runFull p s).status = some (.io e) := by
+  induction hp with
+  | ret a => intro s e h; simp [firstFullErr] at h
+  | read n k _ _ herr ihok iherr =>
+    intro s e h
+    simp only [firstFullErr] at h
+    simp only [runFull]
+    cases hr : readFull n s with
+    | mk d r =>
+      cases r with
+      | mk eo s' =>
+        rw [hr] at h
+        cases eo with
+        | none => exact ihok d s' e h
+        | some e' =>
+          simp only at h ⊢
+          by_cases hf : e'.isReaderFailure = true
+          · simp only [hf, if_true, Option.some.injEq] at h
+            subst h
+            obtain ⟨a, hk, hs⟩ := herr e' hf
+            rw [hk]; exact hs
+          · simp only [hf, if_false] at h
+            exact iherr e' s' e h
+
+theorem rkeeps_fail_read (n : Nat) (st : St) (k : Bytes → P) (hk : ∀ b, RKeeps (k b)) :
+    RKeeps (.read n fun | .error e => .ret (fail st (.io e)) | .ok b => k b) :=
+  RKeeps.read n _ (fun bs => hk bs) (fun e => RKeeps.ret _) (fun e _ => ⟨_, rfl, rfl⟩)
+
+theorem rkeeps_emit (failAt : Option Nat) (st : St) (flag : Nat) (bytes : Bytes) (k : St → P) (hk : ∀ st', RKeeps (k st')) :
+    RKeeps (emit failAt st flag bytes k) := by
+  unfold emit
+  simp only
+  split
+  · exact hk _
+  · split
+    · exact RKeeps.ret _
+    · exact hk _
+
+theorem rkeeps_msgs (failAt : Option Nat) (ds : Nat) (fuel : Nat) : ∀ (used : Nat) (lens : Lens) (st : St) (k : St → P),
+    (∀ st', RKeeps (k st')) → RKeeps (msgs failAt ds fuel used lens st k) := by
+  induction fuel with
+  | zero => intro used lens st k hk; exact hk st
+  | succ fuel ih =>
+    intro used lens st k hk
+    simp only [msgs]
+    split
+    · refine rkeeps_fail_read 1 st _ (fun hb => ?_)
+      split
+      · refine rkeeps_fail_read 5 st _ (fun b5 => ?_)
+        refine rkeeps_fail_read _ st _ (fun fb => ?_)
+        split
+        · refine rkeeps_fail_read 1 st _ (fun nb => ?_)
+          refine rkeeps_fail_read _ st _ (fun db => ?_)
+          exact rkeeps_emit _ _ _ _ _ (fun st' => ih _ _ _ _ hk)
+        · exact rkeeps_emit _ _ _ _ _ (fun st' => ih _ _ _ _ hk)
+      · split
+        · exact RKeeps.ret _
+        · split
+          · exact RKeeps.ret _
+          · refine rkeeps_fail_read _ st _ (fun pb => ?_)
+            exact rkeeps_emit _ _ _ _ _ (fun st' => ih _ _ _ _ hk)
+    · exact hk st
+
+/-- the raw decoder hands every failure of the reader back as the error of `Decode` -/
+theorem rkeeps_decode (failAt : Option Nat) (fuel : Nat) : ∀ (st : St), RKeeps (decode failAt fuel st) := by
+  induction fuel with
+  | zero => intro st; exact RKeeps.ret _
+  | succ fuel ih =>
+    intro st
+    simp only [decode]
+    refine RKeeps.read 1 _ (fun b0 => ?_) (fun e => by simp only; split <;> exact RKeeps.ret _) (fun e he => ?_)
+    · simp only
+      split
+      · exact RKeeps.ret _
+      · refine rkeeps_fail_read _ st _ (fun b => ?_)
+        split
+        · exact RKeeps.ret _
+        · refine rkeeps_emit _ _ _ _ _ (fun st' => ?_)
+          refine rkeeps_msgs _ _ _ _ _ _ _ (fun st2 => ?_)
+          refine rkeeps_fail_read 2 st2 _ (fun c => ?_)
+          exact rkeeps_emit _ _ _ _ _ (fun st3 => ih _)
+    · have hne : e ≠ .eof := by intro h; subst h; simp [RErr.isReaderFailure] at he
+      exact ⟨fail st (.io e), by simp only [hne, and_false, if_false], rfl⟩
+
 end Fit.Raw
